@@ -153,6 +153,14 @@ claim("C19", "other",
       "and the tracker purge resets every slot of the id; candidates are the new list de-duplicated minus the pre-reload labels, every candidate is attempted once whenever there is one, link and I/O handle are stored together under the link's conn_id, and the three label templates are byte-identical.",
       "DESIGN.md 5 C19", "Contracts of SmallVec::retain / HashSet / HashMap are trusted; OS-level socket identity and packets in flight on removed links are not decided.")
 
+claim("C11", "other",
+      "per-iteration path formulas of the scoring loop (exact equivalence for the current-score and best-candidate updates), post-loop path formula of the hysteresis exit, decision tables for gate factor and score formula, closure return formula of the unconstrained predicate, reachability (no clock / RNG), interval abstract interpretation with NaN tracking for the factor ranges",
+      "Decided for every link state and every previous index: the selector returns Some(last) exactly under last given & best != last & current score recorded & best_score < current*1.10, and best_idx otherwise; the current score is recorded exactly for the previous "
+      "link when it passed every skip (timed out, unschedulable, stall-gated, over its cap while an unconstrained link exists), and is the competing score; a link becomes best only if it passed every skip and strictly beats the best so far; the unconstrained predicate is the "
+      "documented 7-way conjunction over the whole slice; gate factor 0.02 iff unconstrained-exists & (weak | loss_degraded) else 1.0; warming weight 0.8; score = get_score*phase*[quality iff flag]*softcap*gate; the flag is effective_quality_enabled(); no clock or RNG is reachable; "
+      "the quality cache stamps the caller's time; quality multiplier in [0.35, 1.133], RTT bonus in [1, 1.03], soft cap in [0.1, 1], none NaN for any field values (NaN RTT / bitrate included), cached value inductively in range, in-flight cap >= 1.",
+      "DESIGN.md 5 C11", "Idempotence of a re-run is decided as: function of its arguments + cache re-use at equal time. Oscillation across a changing state and float rounding of the product are not decided.")
+
 NOT_APPLICABLE = {}
 ALL = ["C%02d" % i for i in range(1, 21)]
 
